@@ -42,6 +42,17 @@ def multi_error_programs(seed, count):
         progs.append(" ".join("(%s : int) =>" % o for o in outer) + " (" + "; ".join("%s = %d" % (v, i) for i, v in enumerate(inner)) + "; " + " + ".join(inner) + ")")
         progs.append("(%s : int) => %s" % (outer[0], " + ".join("u%d" % r.randint(0, 5) for _ in range(r.randint(2, 5)))))
         progs.append("; ".join("%s = %d" % (v, i) for i, v in enumerate(inner)) + "; (" + "; ".join("%s = %d" % (v, i) for i, v in enumerate(reversed(inner))) + "; " + inner[0] + ")")
+    # several SYNTAX errors in one file (the constructs with error recovery: conditionals missing a keyword, groups that are
+    # not closed or miss an operand, annotated definitions without annotation), in definitions separated by line breaks / `;`
+    broken = ["if true 1 else 2", "if false then 3 4", "if true then 1 else", "if 1 else 2", "(1 + )", "(2", "(3 4 =>)", "(x : ) => x", "{y : int => y",
+              "(if true then (1 else 2)", "f (if true 1 else 2) (if false then 3 4)", "1 + (if true 1 else 2) * (if false then 3 4)"]
+    for rep in range(count * 4):
+        n = r.randint(2, 4)
+        names = ["s%d" % i for i in range(n)]
+        sep = r.choice(["\n", "; ", "\n\n"])
+        progs.append(sep.join("%s = %s" % (x, r.choice(broken)) for x in names) + sep + " + ".join(names))
+    progs.append("x = if true 1 else 2\ny = if false then 3 4\nx + y")
+    progs.append("x : (if true int else bool) = (if false then 3 4); x")
     # nested: two groups each with several errors
     progs.append("x = y + z + w; y = 1 + 1; z = 1 + 1; w = 1 + 1; x")
     progs.append("a = (p = q + r + s; q = 1 + 1; r = 2 + 2; s = 3 + 3; p) + b + c; b = 1 + 1; c = 2 + 2; a")
